@@ -541,91 +541,121 @@ func ruleR174(c *Ctx) {
 		return
 	}
 	info := ep.TypesInfo
-	fd := c.FuncDecl(ep, "", "Export")
-	if fd == nil {
+	export := c.FuncDecl(ep, "", "Export")
+	if export == nil {
 		c.Undecided("value/export.Export", token.NoPos, "not found")
 		return
 	}
-	g := c.CFG(fd)
-	n := 0
-	inspectNoLit(fd.Body, func(x ast.Node) bool {
-		call, ok := x.(*ast.CallExpr)
-		if !ok {
-			return true
-		}
-		sel, ok := ast.Unparen(call.Fun).(*ast.SelectorExpr)
-		if !ok || sel.Sel.Name != "Open" {
-			return true
-		}
-		id, ok := ast.Unparen(sel.X).(*ast.Ident)
-		if !ok {
-			return true
-		}
-		obj := info.ObjectOf(id)
-		n++
-		key := fmt.Sprintf("value/export.Export#open-close:%s", id.Name)
-		isClose := func(y ast.Node) bool {
-			return containsNode(y, func(z ast.Node) bool {
-				cc, ok := z.(*ast.CallExpr)
-				if !ok {
-					return false
-				}
-				s2, ok := ast.Unparen(cc.Fun).(*ast.SelectorExpr)
-				if !ok || s2.Sel.Name != "Close" {
-					return false
-				}
-				i2, ok := ast.Unparen(s2.X).(*ast.Ident)
-				return ok && info.ObjectOf(i2) == obj
-			})
-		}
-		isSuccessExit := func(y ast.Node) bool {
-			r, ok := y.(*ast.ReturnStmt)
-			if !ok {
-				return false
-			}
-			if isClose(r) {
-				return false
-			}
-			// error exits: return err under err != nil
-			for _, gd := range g.Guards(r) {
-				if be, ok := ast.Unparen(gd.Cond).(*ast.BinaryExpr); ok && be.Op == token.NEQ && gd.Val {
-					if eid, ok := ast.Unparen(be.X).(*ast.Ident); ok && isErrorType(info.TypeOf(eid)) {
-						return false
+	// the generic traversal: Export and the functions of the package it calls (the container cases may be
+	// extracted into helpers)
+	traversal := []*ast.FuncDecl{export}
+	seenDecl := map[*ast.FuncDecl]bool{export: true}
+	for i := 0; i < len(traversal) && i < 8; i++ {
+		ast.Inspect(traversal[i].Body, func(x ast.Node) bool {
+			if call, ok := x.(*ast.CallExpr); ok {
+				if cal := Callee(info, call); cal != nil && cal.Pkg() == ep.Types && cal.Type().(*types.Signature).Recv() == nil {
+					if d := findFuncDecl(ep, cal); d != nil && d.Body != nil && !seenDecl[d] {
+						seenDecl[d] = true
+						traversal = append(traversal, d)
 					}
 				}
 			}
 			return true
+		})
+	}
+	isExporterIface := func(t types.Type) bool {
+		nm := namedOf(t)
+		if nm == nil || nm.Obj().Pkg() != ep.Types {
+			return false
 		}
-		blk, idx, ok := g.Pos(call)
-		if !ok {
+		_, isIface := nm.Underlying().(*types.Interface)
+		return isIface && (nm.Obj().Name() == "ListExporter" || nm.Obj().Name() == "MapExporter")
+	}
+	n := 0
+	var addCall *ast.CallExpr
+	var addDecl *ast.FuncDecl
+	for _, fd := range traversal {
+		fd := fd
+		g := c.CFG(fd)
+		fname := declName(ep, fd)
+		inspectNoLit(fd.Body, func(x ast.Node) bool {
+			call, ok := x.(*ast.CallExpr)
+			if !ok {
+				return true
+			}
+			sel, ok := ast.Unparen(call.Fun).(*ast.SelectorExpr)
+			if !ok {
+				return true
+			}
+			if sel.Sel.Name == "Add" && len(call.Args) == 2 && isExporterIface(info.TypeOf(sel.X)) {
+				addCall, addDecl = call, fd
+			}
+			if sel.Sel.Name != "Open" || !isExporterIface(info.TypeOf(sel.X)) {
+				return true
+			}
+			id, ok := ast.Unparen(sel.X).(*ast.Ident)
+			if !ok {
+				return true
+			}
+			obj := info.ObjectOf(id)
+			n++
+			key := fmt.Sprintf("%s#open-close:%s", fname, id.Name)
+			isClose := func(y ast.Node) bool {
+				return containsNode(y, func(z ast.Node) bool {
+					cc, ok := z.(*ast.CallExpr)
+					if !ok {
+						return false
+					}
+					s2, ok := ast.Unparen(cc.Fun).(*ast.SelectorExpr)
+					if !ok || s2.Sel.Name != "Close" {
+						return false
+					}
+					i2, ok := ast.Unparen(s2.X).(*ast.Ident)
+					return ok && info.ObjectOf(i2) == obj
+				})
+			}
+			isSuccessExit := func(y ast.Node) bool {
+				r, ok := y.(*ast.ReturnStmt)
+				if !ok {
+					return false
+				}
+				if isClose(r) {
+					return false
+				}
+				// error exits: return err under err != nil
+				for _, gd := range g.Guards(r) {
+					if be, ok := ast.Unparen(gd.Cond).(*ast.BinaryExpr); ok && be.Op == token.NEQ && gd.Val && !gd.Synth {
+						if eid, ok := ast.Unparen(be.X).(*ast.Ident); ok && isErrorType(info.TypeOf(eid)) {
+							return false
+						}
+					}
+				}
+				return true
+			}
+			blk, idx, ok := g.Pos(call)
+			if !ok {
+				return true
+			}
+			found, trail := g.PathAvoiding(blk.Nodes[idx], isSuccessExit, isClose)
+			if found {
+				c.Violation(key, call.Pos(), "after %s.Open() there is a path to a successful return (%s) that does not call %s.Close(): the container is left open and the document is not well formed", id.Name, c.posStr(trail[len(trail)-1].Pos()), id.Name)
+			} else {
+				c.OK(key, call.Pos(), "every path from Open to a successful return calls Close")
+			}
 			return true
-		}
-		found, trail := g.PathAvoiding(blk.Nodes[idx], isSuccessExit, isClose)
-		if found {
-			c.Violation(key, call.Pos(), "after %s.Open() there is a path to a successful return (%s) that does not call %s.Close(): the container is left open and the document is not well formed", id.Name, c.posStr(trail[len(trail)-1].Pos()), id.Name)
-		} else {
-			c.OK(key, call.Pos(), "every path from Open to a successful return calls Close")
-		}
-		return true
-	})
+		})
+	}
 	if n < 2 {
-		c.Undecided("value/export.Export#open-close", fd.Pos(), "expected the list and the map case, found %d Open calls", n)
+		c.Undecided("value/export.Export#open-close", export.Pos(), "expected the list and the map case, found %d Open calls", n)
 	}
 	// present keys only: ma.Add(k, item) under ok of v.Get(k); keys collected by append
 	key := "value/export.Export#present-keys-only"
-	var addCall *ast.CallExpr
-	inspectNoLit(fd.Body, func(x ast.Node) bool {
-		if call, ok := x.(*ast.CallExpr); ok && len(call.Args) == 2 {
-			if sel, ok := ast.Unparen(call.Fun).(*ast.SelectorExpr); ok && sel.Sel.Name == "Add" {
-				addCall = call
-			}
-		}
-		return true
-	})
 	if addCall == nil {
-		c.Undecided(key, fd.Pos(), "map member export not found")
+		c.Undecided(key, export.Pos(), "map member export not found")
 		return
 	}
+	fd := addDecl
+	g := c.CFG(fd)
 	guarded := false
 	for _, gd := range g.Guards(addCall) {
 		if id, ok := ast.Unparen(gd.Cond).(*ast.Ident); ok && gd.Val {
